@@ -6,7 +6,7 @@ import ast
 
 from .. import AnalysisError, flow
 from ..srcmodel import walk_local, norm, dotted, guards, enclosing_stmt, parent
-from . import common
+from . import common, forward
 from .c08 import calltime_defaults
 
 META = {
@@ -22,7 +22,7 @@ META = {
         "Cache purity: keyed by the complete input string, written only under "
         "_USE_CACHE, and the cached function reads nothing but its argument "
         "and constants. Not decided: histories as such."),
-    'families': ['ESCAPE', 'GLOBALS', 'PURITY'],
+    'families': ['ESCAPE', 'GLOBALS', 'PURITY', 'FORWARD', 'DEADPARAM', 'SIB-DEFAULTS'],
 }
 
 MUT = ('append', 'extend', 'insert', 'pop', 'remove', 'clear', 'sort', 'reverse', 'update',
@@ -85,6 +85,7 @@ def check(ctx):
     ctx.attempt(calltime_defaults)
     ctx.attempt(_escape)
     ctx.attempt(_cache_purity)
+    ctx.attempt(forward.check_all, module_suffixes=('trs.trs', 'config.master_config'))
 
 
 def _module_mutables(ctx):
@@ -156,10 +157,8 @@ def _globals_inventory(ctx):
     for modsuf, name in (('plss_preprocess', 'SCRUBBER_REGEXES'), ('tract_preprocess', 'SCRUBBER_REGEXES'),
                          ('tract_preprocess', 'CLEAN_QQ_REGEXES'), ('config.layouts', '_IMPLEMENTED_LAYOUTS')):
         v = ctx.fold.get(modsuf, name)
-        ctx.check(isinstance(v, tuple), 'GLOBALS', f"{modsuf}.{name} is a tuple",
-                  detail_bad=f"{name} became a {type(v).__name__}: code that extends a local 'copy' of it "
-                             f"can now change it for the whole process",
-                  key=f"GLOBALS|{modsuf}.{name}|tuple")
+        ctx.shape(isinstance(v, tuple), 'GLOBALS', f"{modsuf}.{name} is a tuple",
+                  why=f"{name} is a {type(v).__name__}: mutable, but only an actual mutation site (checked above) is a defect")
     # plss_preprocess builds its per-call list with list(...)
     fp = ctx.repo.func('plss_preprocess:plss_preprocess')
     for c in common.method_calls(fp.node, 'insert'):
